@@ -103,6 +103,8 @@ def run_opconf(case):
                     cls = "fails-where-consensus-succeeds"
                 else:
                     cls = "wrong-result"
+                    if op == 113 and got[1] == list(st) + list(st[-6:-4]):
+                        cls = "wrong-result/copies-5th-6th-items-instead-of-moving-them"
                 res.violation(
                     f"C07/opconf/op{op}/{cls}",
                     {"engine": "opconf", "case": dict(case, only=[[x.hex() for x in st], [x.hex() for x in alt]])},
@@ -301,7 +303,17 @@ def run_tours(case):
         res.transitions += steps
         got = lib_eval(prog + obs, tx)
         if not got:
-            res.violation("C07/tours/wrong-final-state", {"engine": "tours", "case": case}, "observer rejects", {"program": [c if isinstance(c, int) else c.hex() for c in prog], "stack": st, "alt": alt}, f"tour of {steps} operations ends in a state different from consensus")
+            # localise: shortest prefix of the tour whose observed state already differs
+            culprit = "unknown"
+            nbase = len(state_program(start, []))
+            for cut in range(nbase + 1, len(prog) + 1):
+                r = interp.run_program(to_bytes(prog[:cut]))
+                o = observer(r[1], r[2]) if r[0] == "ok" else None
+                if o is not None and not lib_eval(prog[:cut] + o, tx):
+                    c = prog[cut - 1]
+                    culprit = f"op{c}" if isinstance(c, int) else f"push{c.hex()}"
+                    break
+            res.violation(f"C07/tours/{culprit}/wrong-state", {"engine": "tours", "case": case}, "observer rejects", {"program": [c if isinstance(c, int) else c.hex() for c in prog], "stack": st, "alt": alt}, f"tour of {steps} operations ends in a state different from consensus")
             return res
         res.ok("tour==consensus", nontrivial=(tuple(case["stack"]), first), sample={"program": [c if isinstance(c, int) else c.hex() for c in prog]} if first == 3 else None)
     res.states += 1
